@@ -62,7 +62,13 @@ func FromAttestation(at *spb.Attestation) ([]byte, error) {
 }
 
 // FromCertTable returns the contents of the certificate table entry for the GCE UEFI endorsement.
-func FromCertTable(table []byte) ([]byte, error) {
+func FromCertTable(table []byte) (blob []byte, err error) {
+	// abi.CertTable.Unmarshal can panic on a malformed table header; report that as an error.
+	defer func() {
+		if r := recover(); r != nil {
+			blob, err = nil, fmt.Errorf("malformed certificate table: %v", r)
+		}
+	}()
 	t := new(abi.CertTable)
 	if err := t.Unmarshal(table); err != nil {
 		return nil, err
